@@ -1,8 +1,11 @@
 (* Properties/C12.v — C12: alert informed entities are normalised without losing or inventing scope.
    Model: parse_alert of Model/Realtime.v (realtime.go:559-692), tied by the rt_alerts engine.  The order-preserving
    "every selector is represented" and the fallback rule are decided on the real results by the engine's specification
-   oracle (written from the property text) on 500+ alerts per run; proved here: the soundness half, for all alerts. *)
-From GV Require Import Base.Prelude Model.RtTypes Model.RtWire Model.Realtime Proofs.RealtimeProofs Gen.Enums.
+   oracle (written from the property text) on 500+ alerts per run; proved here, for all alerts: the soundness half AND the
+   completeness half (the informed entities are exactly, in order, the representation of each selector that informs something,
+   then the route fallbacks; a route is informed by fallback only if a non-identifying trip descriptor names it and no selector
+   names it explicitly). *)
+From GV Require Import Base.Prelude Model.RtTypes Model.RtWire Model.Realtime Model.Static Proofs.RealtimeProofs Proofs.AlertProofs Gen.Enums.
 
 (* every informed entity of a parsed alert informs something, and carries a trip identifier only when it determines a trip *)
 Theorem C12_informs_and_trip_id_sound : forall cm tz id a e, In e (al_informed (fst (parse_alert cm tz id a))) ->
@@ -19,6 +22,27 @@ Theorem C12_fallback_direction : forall r,
   route_entity r DirectionID_Unspecified = {| ie_agency := None; ie_route := Some r; ie_route_type := RouteType_Unknown; ie_dir := 0; ie_trip := None; ie_stop := None |}.
 Proof. reflexivity. Qed.
 Print Assumptions C12_fallback_direction.
+(* the informed entities of a parsed alert are EXACTLY: one entity per selector that informs something, in selector order (its
+   trip identifier kept only when it identifies a trip), followed by the fallback route entities *)
+Theorem C12_informed_entities_exact : forall cm tz id a,
+  al_informed (fst (parse_alert cm tz id a)) =
+  filter_map (represent cm tz) (wa_informed a) ++
+  fallback_entities (fold_left (alert_step cm tz) (wa_informed a) {| aa_entities := []; aa_trips := []; aa_routes := []; aa_from_trips := [] |}).
+Proof. exact informed_entities_exact. Qed.
+Print Assumptions C12_informed_entities_exact.
+Theorem C12_selectors_represented : forall cm tz id a s, In s (wa_informed a) -> informs_something (entity_of cm tz s) = true ->
+  exists e, represent cm tz s = Some e /\ In e (al_informed (fst (parse_alert cm tz id a))) /\
+    ie_agency e = sl_agency s /\ ie_route e = sl_route s /\ ie_route_type e = route_type_rt (sl_route_type s) /\ ie_stop e = sl_stop s /\
+    ie_dir e = direction_rt (sl_direction s).
+Proof. exact selectors_represented. Qed.
+Print Assumptions C12_selectors_represented.
+(* a route informed by fallback is named by a non-identifying trip descriptor of some selector and by no selector's route_id *)
+Theorem C12_fallback_routes : forall cm tz a r,
+  In r (flat_map (fun e => match ie_route e, ie_agency e, ie_stop e, ie_trip e with Some x, None, None, None => [x] | _, _, _, _ => [] end)
+        (fallback_entities (fold_left (alert_step cm tz) (wa_informed a) {| aa_entities := []; aa_trips := []; aa_routes := []; aa_from_trips := [] |}))) ->
+  (exists s k, In s (wa_informed a) /\ route_only cm tz s = Some k /\ k_route k = r) /\ ~ In (Some r) (map sl_route (wa_informed a)).
+Proof. exact fallback_routes. Qed.
+Print Assumptions C12_fallback_routes.
 Example C12_example :
   let td := {| td_trip_id := None; td_route_id := Some "B61"; td_direction_id := Some 1; td_start_time := None; td_start_date := None; td_rel := None; td_nyct := None |} in
   let s := {| sl_agency := None; sl_route := None; sl_route_type := None; sl_trip := Some td; sl_stop := Some "S1"; sl_direction := None; sl_mercury := None |} in
